@@ -3,14 +3,22 @@
 (* channel + ExecutionManager + MockExchange + account feed) against            *)
 (* BarterSystem.tla.  The engine side is observed through the audit stream and   *)
 (* the strategy (which is handed the engine state after every event):           *)
-(*   {"a":"SendOpen","c":cid}      the engine reported an open request as sent   *)
+(*   {"a":"SendOpen","c":cid,"x":exchange}  the engine reported an open request   *)
+(*        as sent; x = the exchange of the instrument the driver addressed       *)
 (*   {"a":"SendCancel","c":cid}    ... a cancel request as sent                  *)
-(*   {"a":"Process","c":cid,"kind":k}  the engine processed an account event     *)
-(*        about cid, k in open_ok | open_filled | open_failed | cancel_ok |      *)
-(*        cancel_err                                                            *)
-(*   {"a":"State","post":{cid: kind}}   engine view of every order afterwards    *)
-(*   {"a":"LinkDown",..} / {"a":"LinkDownCount","n":k}  the driver killed the     *)
-(*        exchange task: one account-stream disconnect notice for that exchange   *)
+(*   {"a":"Process","c":cid,"kind":k,"x":exchange}  the engine processed an       *)
+(*        account event about cid stamped with exchange x, k in open_ok |        *)
+(*        open_filled | open_failed | cancel_ok | cancel_err                     *)
+(*   {"a":"Item","x":exchange}     the engine processed an account item of        *)
+(*        exchange x (the first one is the client's account snapshot)             *)
+(*   {"a":"State","post":{cid: kind},"conn":{exchange: bool},"global":bool}      *)
+(*        engine view afterwards: every order, each exchange's account-link      *)
+(*        health ("market": the market-data links, not modelled here), global    *)
+(*        connectivity - healthy exactly when every link of both kinds is        *)
+(*   {"a":"LinkDown","x":exchange}  the engine processed an account-stream        *)
+(*        disconnect notice naming x (the driver kills exchange tasks one by one)  *)
+(*   {"a":"LinkDownCount","killed":[exchange..]}  end of run: the links the driver *)
+(*        killed - each must have been noticed exactly once                       *)
 (*   {"a":"Quiescent"}             the run was left alone long enough: nothing   *)
 (*        may be outstanding and no order may still be in flight                 *)
 (* The execution manager and the exchange client are NOT observed.  Their steps  *)
@@ -25,80 +33,113 @@ EXTENDS BarterSystem, Json, IOUtils
 Log == ndJsonDeserialize(IOEnv.TRACE)
 
 VARIABLES l, bad
-tvars == <<orders, chan, pending, feed, sends, answered, l, bad>>
+tvars == <<vars, l, bad>>
 
 TInit == Init /\ l = 1 /\ bad = <<>>
 Note(tags) == bad' = IF tags = {} THEN bad ELSE Append(bad, <<l, tags>>)
 
 ReqKindOf(k) == IF k \in {"open_ok", "open_filled", "open_failed"} THEN "open" ELSE "cancel"
-ChanSet == {chan[j] : j \in 1..Len(chan)}
+ChanSet == UNION {{chan[x][j] : j \in 1..Len(chan[x])} : x \in EXCH}
 Outstanding(c, rk) == {r \in ChanSet \cup pending : r.c = c /\ r.k = rk}
 Oldest(S) == CHOOSE r \in S : \A q \in S : r.n <= q.n
-IndexIn(r) == CHOOSE j \in 1..Len(chan) : chan[j] = r
+IndexIn(r) == CHOOSE j \in 1..Len(chan[r.x]) : chan[r.x][j] = r
+KnownX(x) == x \in EXCH
 
 TSendOpen == /\ Log[l].a = "SendOpen"
-             /\ LET c == Log[l].c IN
-                IF orders[c] = "U" /\ sends[c] < MaxSends
-                THEN EngineSendOpen(c) /\ Note({})
+             /\ LET c == Log[l].c  x == Log[l].x IN
+                IF KnownX(x) /\ orders[c] = "U" /\ sends[c] < MaxSends /\ home[c] \in {NoExch, x} /\ link[x] # "dead"
+                THEN EngineSendOpen(c, x) /\ Note({})
                 ELSE \* an id re-used while tracked / beyond the modelled bound: outside the model, adopt
+                     /\ KnownX(x)
                      /\ orders' = [orders EXCEPT ![c] = "OIF"]
-                     /\ chan' = Append(chan, Req("open", c, sends[c] + 1))
+                     /\ home' = [home EXCEPT ![c] = x]
+                     /\ chan' = [chan EXCEPT ![x] = Append(@, Req("open", c, sends[c] + 1, x))]
                      /\ sends' = [sends EXCEPT ![c] = @ + 1]
-                     /\ UNCHANGED <<pending, feed, answered>>
+                     /\ UNCHANGED <<pending, feed, answered, link, conn>>
                      /\ Note({"send_open_outside_model"})
 TSendCancel == /\ Log[l].a = "SendCancel"
                /\ LET c == Log[l].c IN
-                  IF sends[c] > 0 /\ sends[c] < MaxSends
+                  IF sends[c] > 0 /\ sends[c] < MaxSends /\ link[home[c]] # "dead"
                   THEN EngineSendCancel(c) /\ Note({})
-                  ELSE /\ UNCHANGED <<orders, chan, pending, feed, sends, answered>>
+                  ELSE /\ UNCHANGED vars
                        /\ Note({"send_cancel_outside_model"})
 
 \* MgrAccept^j . Answer(r) . EngineProcess, as one step
 TProcess == /\ Log[l].a = "Process"
-            /\ LET c == Log[l].c  k == Log[l].kind  S == Outstanding(c, ReqKindOf(k)) IN
-               IF S = {} THEN
-                  \* an account event that answers nothing outstanding: a second answer / a phantom
-                  /\ orders' = [orders EXCEPT ![c] = After(@, k)]
-                  /\ UNCHANGED <<chan, pending, feed, sends, answered>>
-                  /\ Note({"answer_without_request"})
-               ELSE LET r == Oldest(S)
-                        j == IF r \in ChanSet THEN IndexIn(r) ELSE 0
-                        accepted == {chan[i] : i \in 1..j}
-                    IN /\ chan' = SubSeq(chan, j + 1, Len(chan))
-                       /\ pending' = (pending \cup accepted) \ {r}
-                       /\ answered' = (r :> 1) @@ answered
+            /\ LET c == Log[l].c  k == Log[l].kind  x == Log[l].x  S == Outstanding(c, ReqKindOf(k)) IN
+               \* an account item proves the link of the exchange it is stamped with alive
+               /\ conn' = [y \in EXCH |-> IF y = x THEN "up" ELSE conn[y]]
+               /\ IF S = {}
+                  THEN \* an account event that answers nothing outstanding: a second answer / a phantom
                        /\ orders' = [orders EXCEPT ![c] = After(@, k)]
-                       /\ UNCHANGED <<feed, sends>>
-                       /\ Note({})
+                       /\ UNCHANGED <<home, chan, pending, feed, sends, answered, link>>
+                       /\ Note({"answer_without_request"})
+                  ELSE LET r == Oldest(S)
+                           j == IF r \in ChanSet THEN IndexIn(r) ELSE 0
+                           accepted == {chan[r.x][i] : i \in 1..j}
+                       IN /\ chan' = [chan EXCEPT ![r.x] = SubSeq(@, j + 1, Len(@))]
+                          /\ pending' = (pending \cup accepted) \ {r}
+                          /\ answered' = (r :> 1) @@ answered
+                          /\ orders' = [orders EXCEPT ![c] = After(@, k)]
+                          /\ UNCHANGED <<home, feed, sends, link>>
+                          \* the answer must come back in the name of the exchange the request went to
+                          /\ Note(IF x = r.x THEN {} ELSE {"wrong_exchange"})
+MarketUp(r, x) == x \in DOMAIN r.market /\ r.market[x]
+ConnOf(r) == [x \in EXCH |-> IF x \in DOMAIN r.conn /\ r.conn[x] THEN "up" ELSE "down"]
 TState == /\ Log[l].a = "State"
-          /\ Note(IF \A c \in CID : orders[c] = (IF c \in DOMAIN Log[l].post THEN Log[l].post[c] ELSE "U")
-                  THEN {} ELSE {"engine_view"})
+          /\ Note((IF \A c \in CID : orders[c] = (IF c \in DOMAIN Log[l].post THEN Log[l].post[c] ELSE "U")
+                   THEN {} ELSE {"engine_view"})
+                  \* C14 in the composition: per-exchange account-link health as the notices and items
+                  \* imply, global connectivity healthy exactly when every link is
+                  \cup (IF conn = ConnOf(Log[l]) /\ (Log[l].global <=> \A x \in EXCH : ConnOf(Log[l])[x] = "up" /\ MarketUp(Log[l], x))
+                        THEN {} ELSE {"conn_view"}))
           \* adopt the observed view so that one divergence is reported once
           /\ orders' = [c \in CID |-> IF c \in DOMAIN Log[l].post THEN Log[l].post[c] ELSE "U"]
-          /\ UNCHANGED <<chan, pending, feed, sends, answered>>
+          /\ conn' = ConnOf(Log[l])
+          /\ UNCHANGED <<home, chan, pending, feed, sends, answered, link>>
 TQuiescent == /\ Log[l].a = "Quiescent"
-              /\ Note((IF chan = <<>> /\ pending = {} THEN {} ELSE {"request_never_answered"})
+              /\ Note((IF ChanSet = {} /\ pending = {} THEN {} ELSE {"request_never_answered"})
                       \cup (IF \A c \in CID : ~InFlight(c) THEN {} ELSE {"in_flight_never_resolved"}))
               /\ UNCHANGED vars
 
 \* a new run of the real system starts
 TReset == /\ Log[l].a = "Reset"
-          /\ orders' = [c \in CID |-> "U"] /\ chan' = <<>> /\ pending' = {} /\ feed' = <<>>
+          /\ orders' = [c \in CID |-> "U"] /\ home' = [c \in CID |-> NoExch]
+          /\ chan' = [x \in EXCH |-> <<>>] /\ pending' = {} /\ feed' = <<>>
           /\ sends' = [c \in CID |-> 0] /\ answered' = [r \in {} |-> 0]
+          /\ link' = [x \in EXCH |-> "connecting"] /\ conn' = [x \in EXCH |-> "down"]
           /\ UNCHANGED bad
 
-\* the exchange's execution link was killed by the driver: exactly one disconnect notice must reach
-\* the engine, naming THAT exchange, and its account link (hence global health) must be marked down
+\* an account item of exchange x: (Connect(x) .) EngineProcess
+TItem == /\ Log[l].a = "Item"
+         /\ LET x == Log[l].x IN
+            /\ KnownX(x)
+            /\ link' = [link EXCEPT ![x] = IF @ = "connecting" THEN "up" ELSE @]
+            /\ conn' = [conn EXCEPT ![x] = "up"]
+            /\ UNCHANGED <<orders, home, chan, pending, feed, sends, answered>>
+            \* a dead link delivers nothing any more
+            /\ Note(IF link[x] = "dead" THEN {"item_from_dead_link"} ELSE {})
+
+\* the driver killed an exchange's task (only once that link was quiet): KillLink(x) . EngineProcess,
+\* as one step.  Exactly one disconnect notice may reach the engine per killed link, naming THAT
+\* exchange; the engine's view (next State line) must then show that account link - and global
+\* connectivity - down, the other exchange's link untouched.
 TLinkDown == /\ Log[l].a = "LinkDown"
-             /\ Note(IF Log[l].notice_for_own_exchange /\ Log[l].account_link_down /\ Log[l].global_down
-                     THEN {} ELSE {"link_down_notice"})
-             /\ UNCHANGED vars
+             /\ LET x == Log[l].x IN
+                IF KnownX(x) /\ link[x] = "up"
+                THEN /\ link' = [link EXCEPT ![x] = "dead"]
+                     /\ conn' = [conn EXCEPT ![x] = "down"]
+                     /\ UNCHANGED <<orders, home, chan, pending, feed, sends, answered>>
+                     /\ Note(IF Quiet(x) THEN {} ELSE {"link_down_outside_model"})
+                ELSE \* a second notice for one death, or a notice naming an exchange that is not there
+                     /\ UNCHANGED vars /\ Note({"link_down_notice"})
 TLinkDownCount == /\ Log[l].a = "LinkDownCount"
-                  /\ Note(IF Log[l].n = 1 THEN {} ELSE {"link_down_count"})
+                  /\ LET killed == {Log[l].killed[j] : j \in 1..Len(Log[l].killed)} IN
+                     Note(IF \A x \in EXCH : (x \in killed) <=> (link[x] = "dead") THEN {} ELSE {"link_down_count"})
                   /\ UNCHANGED vars
 
 TNext == /\ l <= Len(Log) /\ l' = l + 1
-         /\ (TReset \/ TSendOpen \/ TSendCancel \/ TProcess \/ TState \/ TQuiescent \/ TLinkDown \/ TLinkDownCount)
+         /\ (TReset \/ TSendOpen \/ TSendCancel \/ TItem \/ TProcess \/ TState \/ TQuiescent \/ TLinkDown \/ TLinkDownCount)
 TSpec == TInit /\ [][TNext]_tvars
 
 Done == l = Len(Log) + 1 => PrintT(<<"TRACE_END", ToJson(bad)>>)
